@@ -53,6 +53,12 @@ AnalysisDevExact ==
 (* ---- C10: synthesis on free coefficient vectors of length M = cfg.N ---- *)
 \* forward-compatible coefficient lengths: M = DwtCoeffLen(n, L) for some n >= 1
 SFeasible(c) == c.mode = "periodization" \/ c.N >= c.L \div 2
+\* the scalar source maps of DWT1Src (what TLAPS reasons about for all sizes) are these tensors
+ScalarFormOK ==
+    (Picked /\ PerFix) =>
+        /\ ScalarFormA(cfg.mode, cfg.N, cfg.L)
+        /\ ScalarFormRefA(cfg.mode, cfg.N, cfg.L)
+        /\ (SFeasible(cfg) => ScalarFormS(cfg.mode, cfg.N, cfg.L))
 SynthesisOK ==
     (Picked /\ SFeasible(cfg)) =>
         Same3(ImplS(cfg.mode, cfg.N, cfg.L), RefS(cfg.mode, cfg.N, cfg.L)) \/ KnownDevS(cfg)
